@@ -1,8 +1,10 @@
 import Driver.Sess
+import Driver.Field
 import Driver.Widcode
 open Driver
 
 def sessions : List (String × Sess) := [
+  ("field", FieldS.sess),
   ("widcode", WidcodeS.sess)
 ]
 
